@@ -45,6 +45,8 @@ def history(case):
                     d = fresh(om, on, oo); d.n = n; d.order = order; d.method = method; scen['re-configured before the first call'] = res(d, x)
                 if gk != 'default':
                     g = gen(); d1 = fresh(om, on, oo, g); d2 = fresh(g=g); d1(y); scen['generator shared with another object'] = res(d2, x)
+                    g = gen(); d2 = fresh(g=g); nd.Derivative(f, step=g, method=om, n=on, order=oo, num_steps=1, offset=2)
+                    scen['generator shared, the other object built with step options'] = res(d2, x)
                 fd.FD_RULES.clear(); scen['cold cache'] = res(fresh(), x)
                 for k, v in scen.items():
                     if v != ref:
@@ -64,3 +66,58 @@ def cache0(case):
             bad.append(dict(key=repr(key), max_abs_difference=float(np.max(np.abs(val - want)))))
     return dict(reproduced=bool(bad), failing=bad[:4], entries_at_import=len(init),
                 statement='cache content at import == what rule() computes with an empty cache (bit-for-bit)')
+
+
+@reg('C09.shared')
+def shared(case):
+    """behaviour that only hidden shared state can break: nested / interleaved use of separate objects"""
+    import numdifftools as nd
+    import numdifftools.extrapolation as ex
+    import numdifftools.fornberg as fb
+    bad = []
+    with warnings.catch_warnings():
+        warnings.simplefilter('ignore')
+        # (1) the documented idiom Jacobian(Gradient(f)): inner and outer pass of the same dimension are in flight together
+        Q = np.array([[2.0, -1.0, 0.5], [-1.0, 3.0, 0.25], [0.5, 0.25, 1.5]])
+        f = lambda x: 0.5 * np.dot(x, np.dot(Q, x))
+        for mo, mi in (('central', 'central'), ('forward', 'central'), ('central', 'complex')):
+            H = nd.Jacobian(nd.Gradient(f, method=mi), method=mo)(np.array([0.3, -0.7, 1.1]))
+            if not np.allclose(H, Q, rtol=1e-6, atol=1e-6):
+                bad.append(dict(what='Jacobian(Gradient(f)) of a quadratic form', outer=mo, inner=mi, got=np.asarray(H).round(6).tolist(), expected=Q.tolist()))
+        # (2) f raising in the middle of a pass must not poison later calls of other objects
+        g0 = nd.Gradient(f)(np.array([0.3, -0.7, 1.1]))
+        cnt = [0]
+
+        def boom(x):
+            cnt[0] += 1
+            if cnt[0] == 3:
+                raise RuntimeError('user function failed')
+            return f(x)
+        try:
+            nd.Gradient(boom)(np.array([0.3, -0.7, 1.1]))
+        except RuntimeError:
+            pass
+        g1 = nd.Gradient(f)(np.array([0.3, -0.7, 1.1]))
+        if not np.array_equal(g0, g1):
+            bad.append(dict(what='Gradient after another Gradient was interrupted by an exception in f', before=g0.tolist(), after=g1.tolist()))
+        # (3) two default-constructed extrapolators are independent
+        seq = [1 + 0.5 ** k for k in range(5)]
+        first = [ex.EpsAlg()(v) for v in [3.0, 2.0, 1.5]]       # a used-and-dropped instance
+        e2 = ex.EpsAlg(); out = [e2(v) for v in seq]
+        if not abs(out[2] - 1.0) <= 1e-12:
+            bad.append(dict(what='a fresh EpsAlg() continues the table of an earlier instance', third_value=float(out[2]), expected=1.0))
+        # (4) weight tables held by the caller are not overwritten by later calls
+        W1 = fb.fd_weights_all(np.array([0.0, 1.0, 3.0]), 0.5, 1); keep = np.array(W1, copy=True)
+        fb.fd_weights_all(np.array([-2.0, 0.5, 4.0]), 0.0, 1)
+        if not np.array_equal(W1, keep):
+            bad.append(dict(what='fd_weights_all result changed by a later call', before=keep.tolist(), after=np.asarray(W1).tolist()))
+        # (5) a step generator shared by two objects is not modified by constructing (or configuring) the second one
+        gen = nd.MinStepGenerator(num_steps=10)
+        d1 = nd.Derivative(np.exp, step=gen, full_output=True)
+        r0 = d1(1.0)
+        nd.Derivative(np.sin, step=gen, method='forward', num_steps=1)
+        r1 = d1(1.0)
+        if not (r0[0] == r1[0] and r0[1].error_estimate == r1[1].error_estimate and r0[1].final_step == r1[1].final_step):
+            bad.append(dict(what='constructing a second object on a shared generator changed the first object', before=(float(r0[0]), float(r0[1].error_estimate)),
+                            after=(float(r1[0]), float(r1[1].error_estimate))))
+    return dict(reproduced=bool(bad), failing=bad[:4], statement='separate objects (and later calls) do not influence each other')
